@@ -5,7 +5,7 @@ META = {
     "property_id": "C10",
     "technique": "Coq theorems about the port model (timestamp exactness via lia, sequence ids via modular algebra) + executable oracle ok_C10 evaluated in Coq on implementation traces + differential correspondence of complete observable traces",
     "category": "proof",
-    "text": "Whole histories: C10_frames_main - for every valid set-up and every host-call sequence every frame the model emits decodes under the modelled parser, carries own identity, instance domain/sdoId, has exactly its declared size <= 1024 and uses the channel of its type (the frame conjunct of ok_C10, which ok_C10 implies: C10_oracle_implies_frames); C10_seq_main - for every history of any length the sequence ids of Sync / Delay_Req / Pdelay_Req / Announce of each port increase by one modulo 2^16 from one emission to the next (the sequence conjunct seq_check of ok_C10, C10_oracle_implies_seq). Proved in Coq for all timestamps in [0,2^63 ns) and all request headers: Follow_Up origin+correction equals the transmit time to 2^-16 ns, Delay_Resp / Pdelay_Resp / Pdelay_Resp_Follow_Up carry the receive/origin time to the nanosecond with saturating correction and echo requester and sequence id; sequence generators give (x+n) mod 2^16 after n emissions for every n (no unrolling). The whole-trace statement (every emitted frame decodes under the modelled parser, own identity, domain, sdoId, size, at most one event send per action set, exactly-one response rule) is the executable oracle ok_C10; it is evaluated inside Coq on the traces of the real implementation for generated histories (debug and release), and the model that the theorems are about is compared event by event with the implementation.",
+    "text": "C10_main - for every valid set-up and EVERY valid event list the COMPLETE oracle ok_C10 accepts the model's own trace (frames, sequence ids, at most one event frame per call, and the responses: Follow_Up, Delay_Resp, Pdelay_Resp, Pdelay_Resp_Follow_Up with exact timestamps, corrections and echoed identifiers; no other call emits a response). Whole histories: C10_frames_main - for every valid set-up and every host-call sequence every frame the model emits decodes under the modelled parser, carries own identity, instance domain/sdoId, has exactly its declared size <= 1024 and uses the channel of its type (the frame conjunct of ok_C10, which ok_C10 implies: C10_oracle_implies_frames); C10_seq_main - for every history of any length the sequence ids of Sync / Delay_Req / Pdelay_Req / Announce of each port increase by one modulo 2^16 from one emission to the next (the sequence conjunct seq_check of ok_C10, C10_oracle_implies_seq). Proved in Coq for all timestamps in [0,2^63 ns) and all request headers: Follow_Up origin+correction equals the transmit time to 2^-16 ns, Delay_Resp / Pdelay_Resp / Pdelay_Resp_Follow_Up carry the receive/origin time to the nanosecond with saturating correction and echo requester and sequence id; sequence generators give (x+n) mod 2^16 after n emissions for every n (no unrolling). The whole-trace statement (every emitted frame decodes under the modelled parser, own identity, domain, sdoId, size, at most one event send per action set, exactly-one response rule) is the executable oracle ok_C10; it is evaluated inside Coq on the traces of the real implementation for generated histories (debug and release), and the model that the theorems are about is compared event by event with the implementation.",
     "design_ref": "DESIGN.md section 6 (C10)",
     "level_note": "Theorems are about the hand-written model (constructors msg_follow_up/msg_delay_resp/..., gen16); they are closed under the global context. The frame conjunct of ok_C10 is proved for all histories (C10_frames_main); the sequence conjunct is proved for all histories (C10_seq_main); the remaining conjunct (exactly-one-response with exact timestamps, at most one event send per call) is proved per handler and evaluated on traces. Trusted: Coq kernel/vm_compute, model, harness.",
 }
